@@ -7,10 +7,10 @@ from .internal import value_properties as _value_properties
 
 
 def _splitlines(s: str) -> list[str]:
-    lines = s.splitlines(keepends=True)
-    if not lines or lines[-1].endswith('\n'):
-        lines.append('')
-    return lines
+    # Only \n ends a comment line (the grammar's line end is /\r*\n/); str.splitlines would also
+    # split at \r, form feed, NEL, U+2028 etc., which are ordinary characters inside a comment.
+    lines = s.split('\n')
+    return [line + '\n' for line in lines[:-1]] + [lines[-1]]
 
 
 @_registry.token_model
